@@ -94,7 +94,7 @@ fn attrs_info(attrs: &[syn::Attribute]) -> (Value, Vec<String>, Vec<String>) {
             }
         }
     }
-    (if has_y { Value::Object(y) } else { Value::Null }, derives, docs)
+    (Value::Object(if has_y { y } else { Map::new() }), derives, docs)
 }
 
 fn path_str(p: &syn::Path) -> String {
@@ -152,6 +152,32 @@ fn unwrap_type(t: &syn::Type) -> (String, String) {
     ("Bare".to_string(), type_str(t))
 }
 
+/// path segments of a plain path type (no generics), else empty
+fn type_segs(t: &syn::Type) -> Vec<String> {
+    if let syn::Type::Path(tp) = t {
+        if tp.path.segments.iter().all(|s| matches!(s.arguments, syn::PathArguments::None)) {
+            return tp.path.segments.iter().map(|s| s.ident.to_string()).collect();
+        }
+    }
+    vec![]
+}
+
+fn inner_type(t: &syn::Type) -> &syn::Type {
+    if let syn::Type::Path(tp) = t {
+        if tp.path.segments.len() == 1 {
+            let seg = &tp.path.segments[0];
+            if seg.ident == "Option" || seg.ident == "Vec" {
+                if let syn::PathArguments::AngleBracketed(ab) = &seg.arguments {
+                    if let Some(syn::GenericArgument::Type(inner)) = ab.args.first() {
+                        return inner;
+                    }
+                }
+            }
+        }
+    }
+    t
+}
+
 fn ident_info(id: &syn::Ident) -> (String, String, bool) {
     let written = id.to_string();
     let raw = written.starts_with("r#");
@@ -167,7 +193,7 @@ fn struct_json(s: &syn::ItemStruct) -> Value {
             let (fy, _, _) = attrs_info(&f.attrs);
             let (written, un, raw) = ident_info(f.ident.as_ref().unwrap());
             let (w, ty) = unwrap_type(&f.ty);
-            fields.push(json!({"id": written, "name": un, "raw": raw, "w": w, "ty": ty, "y": fy,
+            fields.push(json!({"id": written, "name": un, "raw": raw, "w": w, "ty": ty, "seg": type_segs(inner_type(&f.ty)), "y": fy,
                                "pub": matches!(f.vis, syn::Visibility::Public(_))}));
         }
     }
@@ -308,7 +334,7 @@ fn item_json(it: &syn::Item, out: &mut Vec<Value>) {
     match it {
         syn::Item::Struct(s) => out.push(struct_json(s)),
         syn::Item::Type(t) => {
-            out.push(json!({"k":"alias","name": t.ident.to_string(), "ty": type_str(&t.ty)}));
+            out.push(json!({"k":"alias","name": t.ident.to_string(), "ty": type_str(&t.ty), "seg": type_segs(&t.ty)}));
         }
         syn::Item::Impl(im) => {
             let for_ty = type_str(&im.self_ty);
